@@ -3,8 +3,10 @@
 job['kind'] == 'replay'  (spec -> code; plain interpreter, single thread)
     items = [{'id', 'lines': [json text of <<b, w, custom, arrival times, yields <<t, first, items>>>>, ...]}]
     Every line is the (unique) behaviour TLC computed for one eager scenario.  The real `EagerBatcher.__iter__` runs
-    over a harness queue whose `get(timeout)` and the patched `time.perf_counter` read the same integer virtual clock
-    and the arrival schedule; yields are stamped with virtual time and compared EXACTLY with the spec's `out`.
+    over a harness queue whose `get(timeout)` and the patched `time.perf_counter` read the same virtual clock and the
+    arrival schedule; yields are stamped with virtual time and compared EXACTLY with the spec's `out`.  Each behaviour
+    runs twice: on a FROZEN clock (integer; time moves only inside get) and on a TICKING clock (every read returns
+    now + k*1e-7, k = reads so far, i.e. time elapses between statements; stamps rounded to the tick unit).
 
 job['kind'] == 'threads'  (code -> spec; under detsched)
     items = [{'id', 'sc': {'b', 'w', 'custom', 'gaps': [...]}, 'seed', 'strategy'}]
@@ -38,57 +40,95 @@ class Hang(Exception):
 
 
 class VClock:
+    """frozen virtual clock: time moves only inside the queue's get()"""
+
     def __init__(self):
         self.now = 0
 
     def __call__(self):
         return self.now
 
+    peek = __call__
+
+    def jump_to(self, t):
+        self.now = t
+
+
+class TickClock:
+    """ticking virtual clock: every read is a hair later than the previous one (time elapses between statements), so
+    `deadline - perf_counter()` is slightly NEGATIVE at the deadline instead of exactly 0"""
+
+    EPS = 1e-7
+
+    def __init__(self):
+        self.base = 0.0
+        self.k = 0
+
+    def __call__(self):
+        self.k += 1
+        return self.base + self.k * self.EPS
+
+    def peek(self):
+        return self.base + self.k * self.EPS
+
+    def jump_to(self, t):  # t >= peek()
+        self.base = t - self.k * self.EPS
+
+
+def grid(x):
+    """virtual time -> tick unit (None if it is not within 1e-2 of the grid)"""
+    r = int(round(x))
+    return r if abs(x - r) < 1e-2 else None
+
 
 class HarnessQueue:
-    """Arrival schedule + virtual clock behind the `get` interface EagerBatcher uses."""
+    """Arrival schedule + virtual clock behind the `get` interface EagerBatcher uses (the clock it reads is the one
+    `time.perf_counter` is patched to)."""
 
     def __init__(self, clock, arrivals):
         self.clock = clock
         self.arr = arrivals  # [(time, object)]
         self.k = 0
-        self.gets = []  # (virtual time, object) of every successful get
+        self.gets = []  # (virtual time in ticks, object) of every successful get
 
     def _take(self):
         t, obj = self.arr[self.k]
         self.k += 1
-        self.gets.append((self.clock.now, obj))
+        self.gets.append((grid(self.clock.peek()), obj))
         return obj
 
     def get(self, block=True, timeout=None):
         c = self.clock
-        if self.k < len(self.arr) and self.arr[self.k][0] <= c.now:
+        cur = c()
+        if self.k < len(self.arr) and self.arr[self.k][0] <= cur:
             return self._take()
         if not block:
             raise queue.Empty
         if timeout is None:
             if self.k >= len(self.arr):
-                raise Hang(f'get() would block forever at t={c.now}')
-            c.now = self.arr[self.k][0]
+                raise Hang(f'get() would block forever at t={cur}')
+            c.jump_to(self.arr[self.k][0])
             return self._take()
         if timeout < 0:
             raise ValueError("'timeout' must be a non-negative number")
-        deadline = c.now + timeout
+        deadline = cur + timeout
         if self.k < len(self.arr) and self.arr[self.k][0] <= deadline:
-            c.now = self.arr[self.k][0]
+            c.jump_to(self.arr[self.k][0])
             return self._take()
-        c.now = deadline
+        c.jump_to(deadline)
         raise queue.Empty
 
 
-def replay_one(case):
-    """returns None if the real EagerBatcher reproduces the spec's behaviour exactly, else a description"""
+def replay_one(case, tick=False):
+    """returns None if the real EagerBatcher reproduces the spec's behaviour exactly, else a description.
+    tick=False: frozen clock (integer time).  tick=True: ticking clock; times are compared after rounding to the tick
+    unit, the expected batches are the same."""
     from mpservice.streamer import _streamer
     b, w, custom, times, exp = case
     n = len(times) - 1
     end = END_CUSTOM if custom else None
     arrivals = [(times[i], payload(i + 1, custom)) for i in range(n)] + [(times[n], end)]
-    clock = VClock()
+    clock = TickClock() if tick else VClock()
     q = HarnessQueue(clock, arrivals)
     saved = time.perf_counter
     time.perf_counter = clock
@@ -104,7 +144,7 @@ def replay_one(case):
                     break
                 items = [number(x) for x in batch]
                 first = next((t for t, obj in q.gets if obj is not end and number(obj) == items[0]), None)
-                got.append([clock.now, first, items])
+                got.append([grid(clock.peek()), first, items])
                 if len(got) > n + 1:
                     return {'what': 'too-many-batches', 'got': got}
         except Hang as e:
@@ -125,15 +165,21 @@ def _run_replay(job):
     for item in job['items']:
         for line in item['lines']:
             case = json.loads(line)
-            res['n_cases'] += 1
-            bad = replay_one(case)
-            res['n_exec'] += 1
             if item.get('canary'):
+                res['n_cases'] += 1
+                res['n_exec'] += 1
                 res['canary_items'] += 1
+                bad = replay_one(case)
                 if bad is not None:
                     res['canaries'].append(bad['what'])
-            elif bad is not None and len(res['mismatches']) < 50:
-                res['mismatches'].append({'case': case, **bad})
+                continue
+            # every behaviour twice: on the frozen clock and on the ticking clock
+            for tick in (False, True):
+                res['n_cases'] += 1
+                res['n_exec'] += 1
+                bad = replay_one(case, tick)
+                if bad is not None and len(res['mismatches']) < 50:
+                    res['mismatches'].append({'case': case, 'clock': 'ticking' if tick else 'frozen', **bad})
     return res
 
 
@@ -173,7 +219,7 @@ def _make_scenario(sc):
     def T():
         d = detsched.now() - t0[0]
         r = int(round(d))
-        if abs(d - r) > 1e-6:
+        if abs(d - r) > 1e-2:  # (with clock_eps timers fire a hair early / late)
             raise AssertionError(f'virtual time {d} is not on the integer grid')
         return r
 
@@ -238,11 +284,12 @@ def _run_threads(job):
     traces, hangs, n_exec = [], [], 0
     for item in job['items']:
         sc, seed, strat = item['sc'], item['seed'], item.get('strategy', 'random')
+        # item['eps'] > 0: ticking clock - every read of time.perf_counter()/monotonic() is a hair later than the last
         res = detsched.run(_make_scenario(sc), make_strategy(strat, seed), max_steps=200000, stall_timeout=60,
-                           max_idle_vtime=2000.0)
+                           max_idle_vtime=2000.0, clock_eps=float(item.get('eps', 0.0)))
         n_exec += 1
         rec = {'id': item['id'], 'p': header(sc), 'ev': strip(res.trace), 'sc': sc, 'seed': seed, 'strategy': strat,
-               'status': res.status}
+               'eps': float(item.get('eps', 0.0)), 'status': res.status}
         if res.status != 'ok' or res.exc is not None:
             rec.update(detail=res.detail, waitmap={k: repr(v) for k, v in (res.waitmap or {}).items()},
                        exc=repr(res.exc) if res.exc is not None else None, leftover=res.leftover)
